@@ -663,6 +663,47 @@ func c05Loops(c *Ctx, r *Report) {
 			}
 			okVal = fOK && vcall != nil && vcall == ecall
 			detail = fmt.Sprintf("Field=%v value-call=%v error-call=%v", fOK, vcall != nil, ecall != nil)
+			// all three are assigned afresh for every element: each store is executed on every path
+			// to the point where the record is read for appending, within the same iteration (a
+			// record kept across iterations with a conditionally assigned Error reports a stale one)
+			if okVal {
+				var reads []ssa.Instruction
+				if refs := fv.Referrers(); refs != nil {
+					for _, rf := range *refs {
+						if ld, ok := rf.(*ssa.UnOp); ok && ld.Op == token.MUL {
+							reads = append(reads, ld)
+						}
+					}
+				}
+				fresh := len(reads) > 0
+				if refs := fv.Referrers(); refs != nil {
+					for _, rf := range *refs {
+						fa, ok := rf.(*ssa.FieldAddr)
+						if !ok || fa.Referrers() == nil {
+							continue
+						}
+						for _, u := range *fa.Referrers() {
+							st, ok := u.(*ssa.Store)
+							if !ok || st.Addr != ssa.Value(fa) {
+								continue
+							}
+							for _, rd := range reads {
+								if !instrBefore(st, rd) {
+									fresh = false
+								}
+							}
+							// the record lives outside the loop: the store must be inside it
+							if !blockReaches(fv.Block(), fv.Block()) && !blockReaches(st.Block(), st.Block()) {
+								fresh = false
+							}
+						}
+					}
+				}
+				if !fresh {
+					okVal = false
+					detail += " (a component is not assigned on every iteration before the record is appended)"
+				}
+			}
 		}
 		if okVal {
 			r.ok("R5.4", id, "the appended FieldValue carries the loop's field and the (value, error) pair just obtained for it", pos, true)
@@ -1585,6 +1626,29 @@ func builderReadOnly(c *Ctx, r *Report, rule string) {
 	}
 	t := runTaint(c, roots, sources, seq, "the builder's field list")
 	r.instance(rule, len(roots))
+	// (3) the definitions themselves are not edited on the way: no function on the build path stores
+	// to a field of a Field value (a normalising Validate would change the copy that gets batched)
+	if ft := sp.Type("Field"); ft != nil {
+		for fn := range t.funcs {
+			for _, b := range fn.Blocks {
+				for _, in := range b.Instrs {
+					st, ok := in.(*ssa.Store)
+					if !ok {
+						continue
+					}
+					fa, ok := st.Addr.(*ssa.FieldAddr)
+					if !ok || !types.Identical(deref(fa.X.Type()), ft.Type()) {
+						continue
+					}
+					// building a Field in a local composite literal is construction, not editing
+					if al, isAlloc := fa.X.(*ssa.Alloc); isAlloc && al.Comment == "complit" {
+						continue
+					}
+					t.add(fn, "R13.2", "store to field "+fieldVarOf(fa).Name()+" of a Field definition while building requests", st.Pos(), "field-definition-edited:"+fieldVarOf(fa).Name())
+				}
+			}
+		}
+	}
 	seen := map[string]bool{}
 	for _, f := range t.findings {
 		if strings.HasPrefix(f.sig, "param-store:") {
